@@ -10,6 +10,11 @@ from . import build, core
 REGISTRY = {
     "C01": ("answers", {"rel": []}),
     "C02": ("answers", {"rel": []}),
+    "C03": ("models", {"rel": []}),
+    "C04": ("history", {"rel": []}),
+    "C05": ("history", {"rel": []}),
+    "C29": ("history", {"rel": []}),
+    "C30": ("history", {"rel": []}),
 }
 
 
@@ -37,6 +42,8 @@ def main(argv):
         return setup()
     prop = argv[0]
     tier = os.environ.get("VERIF_TIER", "quick")
+    if tier not in ("quick", "thorough"):
+        tier = "quick"
     replay = None
     i = 1
     while i < len(argv):
@@ -52,6 +59,7 @@ def main(argv):
     if prop not in REGISTRY:
         print("unknown property", prop)
         return 2
+    os.environ["VERIF_TIER_EFFECTIVE"] = tier
     modname, flav = REGISTRY[prop]
     try:
         for f, hs in flav.items():
@@ -63,7 +71,8 @@ def main(argv):
     if replay:
         with open(replay) as f:
             w = json.load(f)
-        vs = mod.replay(prop)(w.get("witness", w))
+        rf = mod.replay(prop) if hasattr(mod, "replay") else getattr(mod, prop.lower() + "_replay")
+        vs = rf(w.get("witness", w))
         for v in vs:
             print("VIOLATION property=%s replay=%s" % (prop, replay))
             print("  [%s] %s" % (v.key(), v.detail[:2000]))
